@@ -186,6 +186,9 @@ fn gen_free_text(t: &mut Tape) -> String {
 
 fn gen_file_name(t: &mut Tape, bg: bool) -> String {
     let mut s = gen_free_text(t).replace('\\', "");
+    if t.chance(50) {
+        s.push_str(*t.pick(&[".jpg", ".png", ".mp4", ".avi", ".MOV", ".mp3", ".ogg", ".flv", "mpg", ".m4v", ".wmv", ".jpeg", ".osb"]));
+    }
     if bg {
         s = s.replace(',', "");
     }
